@@ -3,7 +3,7 @@
 import json, os
 V = os.path.dirname(os.path.dirname(os.path.abspath(__file__)))
 
-S_NOTE = ("Each run draws its schedule from one of four strategies (random walk, sticky random, partial-order sampling, PCT of depth 1-4); one seed is one exactly repeatable execution. A run that exhausts its step budget is reported as no-progress, a run that kills or stalls the worker inside the code under test as crash/hang (re-executed alone from its seed before it is believed). Trusted base: Go toolchain and race detector; simgen's rewrite rules (the repository's tests pass on the rewritten tree); "
+S_NOTE = ("Each run draws its schedule from one of four strategies (random walk, sticky random, partial-order sampling, PCT of depth 1-4), a quarter of the runs with stalled goroutines injected (task_freeze); one seed is one exactly repeatable execution. A run that exhausts its step budget is reported as no-progress, a run that kills or stalls the worker inside the code under test as crash/hang (re-executed alone from its seed before it is believed). Trusted base: Go toolchain and race detector; simgen's rewrite rules (the repository's tests pass on the rewritten tree); "
           "the enabledness models of mutex/RWMutex/WaitGroup/channel/select/timer in verif/sim/rt (a wrong model fails towards exit 2 through the divergence guards, not towards a false VIOLATION); "
           "porcupine v1.3.0 where linearizability is checked; the reference models. Seeded sampling within stated bounds: evidence, not proof.")
 H_NOTE = ("Runs on the rewritten copy so that map iteration order is a replayable draw; otherwise single client, no faults: these properties have no schedule, clock or fault dimension; what is explored is the space of operation histories. "
@@ -18,11 +18,11 @@ claimed = {
               technique="deterministic simulation: seeded scheduler over the real code, per-value linearizability (porcupine) + conservation oracle, race detector in-sim"),
   "C09": dict(tier="S", text="Seeded search over schedules of 2-4 simulated goroutines locking, try-locking, read-locking and unlocking 1-3 keys of KeyedMutex/KeyedRWMutex at the granularity of the underlying map's atomic steps, first-use collisions included; occupancy invariant, Try* contract from recorded intervals, and cross-key independence decided by injecting a holder that stalls forever and requiring every task that needs other keys to finish.", ref="3 (C09)",
               technique="deterministic simulation: seeded scheduler, stalled-holder fault injection, occupancy and blocked-set oracles, race detector witness"),
-  "C17": dict(tier="S", text="Seeded search over arrival orders and interleavings of 2-6 callers of Once1/2/3.Do with distinct functions that contain scheduling points; exactly-one-invocation, shared results and completion-before-return (plain effect variable, also witnessed by the race detector).", ref="3 (C17)",
+  "C17": dict(tier="S", text="Seeded search over arrival orders and interleavings of 2-6 callers of Once1/2/3.Do with distinct functions that contain scheduling points; exactly-one-invocation, shared results and completion-before-return (plain effect variable, also witnessed by the race detector); slow actions (virtual sleep), panicking and nil functions, and two Once values in use at once, one nested in the other's action, are part of the workload.", ref="3 (C17)",
               technique="deterministic simulation: seeded scheduler over the wrapper with an interleavable Once, exactly-once oracle, race detector in-sim"),
   "C18": dict(tier="S", text="Seeded search over interleavings of Load/Store/Swap/CompareAndSwap on AtomicValue[T] checked as an atomic register with porcupine, and of Get/use/Put on Pool[T] under a sync.Pool stub whose misses, dropped Puts and arbitrary choice are injected faults, with an ownership ledger and owner-field witness; a share of runs under the race detector (which found and now guards the Pool.Get race).", ref="3 (C18)",
               technique="deterministic simulation: seeded scheduler, sync.Pool fault stub, register linearizability (porcupine), ownership oracle, race detector in-sim"),
-  "C19": dict(tier="S", text="Seeded search over the timing of peer, timer, context cancellation and close around one SendTimeout/SendContext/RecvTimeout/RecvContext call (virtual clock, stalls that let a deadline pass while tasks are runnable), and over capacity, fill level, open/closed state, limit and concurrent senders for RecvQueued/RecvQueuedFull; conservation of unique tokens (acknowledged-sent = received + buffered), legitimacy of every false result, FIFO and never-blocks for the queued receivers.", ref="3 (C19)",
+  "C19": dict(tier="S", text="Seeded search over the timing of peer, timer, context cancellation and close around one SendTimeout/SendContext/RecvTimeout/RecvContext call (virtual clock, stalls that let a deadline pass while tasks are runnable), and over capacity, fill level, open/closed state, limit, concurrent senders (one of which may close the channel after its last send) and competing receivers for RecvQueued/RecvQueuedFull; conservation of unique tokens (acknowledged-sent = received + buffered), legitimacy of every false result, FIFO and never-blocks for the queued receivers.", ref="3 (C19)",
               technique="deterministic simulation: seeded scheduler with virtual clock, timer/cancel/close fault injection, token-conservation oracle, race detector in-sim"),
   "C10": dict(tier="S", text="Seeded search over schedules of publishers (all six variants, WithOnly), per-subscription receivers (well-behaved, slow, stopping, absent), and a control task subscribing and unsubscribing, with the virtual clock driving PubTimeoutAfter and stalls letting deadlines pass; at-most-once, exactly-once / delivery-or-timeout accounting, Sync order, Wait-returns-after-hand-off (no live sender task at return), error values, closing exactly the removed channels, and no panic in any task including library-spawned ones. Clones taken before their channel is removed, Sub racing UnsubAll, Unsub called from the OnPubTimeout callback, slices overwritten after return and liveness under a positive timeout (nobody stays blocked, no timeout reported early, callback never after a Wait/Sync return) are part of the workload and oracle. The send-on-closed-channel panic of the asynchronous variants and three later PubSub defects were found by this check and are fixed in /repo (41a08ec, 210ba83, 644d9c9). WithOnly is also applied to publishers made by WithOnly.", ref="3 (C10)",
               technique="deterministic simulation: seeded scheduler with virtual clock, receiver-stall/unsubscribe/close fault injection, conservation and ordering oracles over the recorded history"),
